@@ -577,7 +577,10 @@ def run_case(ctx, case):
                         after = w.dump()
                     finally:
                         w.close()
-                    results[mode] = [rig.Result(s).norm() for s in sent]
+                    # (what the server draws at random for an executed frame - a signature with a randomised padding, a cipher text
+                    # under an IV of its choosing and that IV - is not a function of the frame: left out of the comparison)
+                    results[mode] = [T.strip(x, {0x4200C3, 0x4200C2, 0x42003D}) if isinstance(x, tuple) and len(x) == 3 and isinstance(x[2], list) else x
+                                     for x in (rig.Result(s).norm() for s in sent)]
                     ctx.ev(len(frames))
                     ctx.count('frames_sent', len(frames))
                     detail = {'kinds': kinds, 'decodable': dec, 'mode': mode, 'version': version,
@@ -642,7 +645,8 @@ def run_case(ctx, case):
                     ctx.count('chunkings_compared')
                     if results[m] != results[modes[0]]:
                         ctx.violation('chunking', 'responses differ between recv chunkings %s and %s for stream %s'
-                                      % (modes[0], m, kinds), {'kinds': kinds})
+                                      % (modes[0], m, kinds), {'kinds': kinds, modes[0]: str(results[modes[0]])[:1500], m: str(results[m])[:1500],
+                                                                'frames': [f.hex()[:600] for f in frames]})
                 if len(ctx.samples) < 6 and nbad and rng.random() < 0.15:
                     ctx.sample({'stream': kinds, 'decodable': dec, 'structurally_incomplete': incomplete,
                                 'responses_first_chunking': [str(x)[:80] for x in results[list(results)[0]]],
